@@ -497,9 +497,15 @@ func areaInstance(r *Rng, n int, dir string) (*AreaOut, error) {
 		}
 		var sds []snapDBI
 		nd := 1 + r.Intn(3)
+		onlyPrivate := (fmtv == 0 || compat > 3) && r.Chance(35)
 		usedNames := map[string]bool{}
 		for j := 0; j < nd; j++ {
 			name := pick(r, []string{"app", "app", "ints", "dup", "new1", "_sync_meta", "zz"})
+			if onlyPrivate {
+				// a snapshot of an unreadable version whose DBIs are all private (skipped by the merge loop before any
+				// per-DBI check): refused all the same
+				name = pick(r, []string{"_sync_meta", "_sync_shadow_app", "_sync_x"})
+			}
 			if j == 0 && !native && hack && r.Chance(70) {
 				for _, o := range ovrs { // the documented way to receive a duplicate-keys DBI: override_create_flags MDB_DUPSORT
 					if o.name == "dup" {
